@@ -203,6 +203,7 @@ type sideMon struct {
 	ackPktSeq int
 	hbAckSeq  int
 	hbAckSeen bool
+	hbPending []hbExpect // HEARTBEATs delivered to this endpoint that it has not answered yet (C19)
 	needAckNow   bool      // the pending acknowledgement must be immediate (gap / duplicate)
 	needAckNowAt time.Duration
 	needAckWhy   string
@@ -211,6 +212,8 @@ type sideMon struct {
 	dlvInStep int
 	snapT3   uint64
 	snapFR   bool
+	miss3    map[uint32]bool // outstanding TSNs with three miss indications after the previous step
+	snapPktsIn uint64
 	lastFwdCum uint32
 	haveFwdCum bool
 }
@@ -279,6 +282,20 @@ func (sm *sideMon) learnInit(c *wChunk) {
 
 // ---------------------------------------------------------------- emission
 
+// hbExpect: a HEARTBEAT of the real peer that reached a live endpoint intact must be echoed by a HEARTBEAT-ACK.
+type hbExpect struct {
+	value []byte
+	at    time.Duration
+}
+
+func hbAnsweringState(st uint32) bool {
+	switch st {
+	case established, shutdownPending, shutdownSent, shutdownReceived, shutdownAckSent:
+		return true
+	}
+	return false
+}
+
 func (m *wireMon) onEmit(p *wirePacket) {
 	w := m.w
 	X := p.from
@@ -341,6 +358,14 @@ func (m *wireMon) onEmit(p *wirePacket) {
 				}
 				if !has {
 					w.violate("C12", "initack-without-cookie", "%s emitted INIT-ACK without a state cookie", m.name(X))
+				}
+			}
+		case wtHBACK:
+			for i, e := range sm.hbPending {
+				if bytes.Equal(e.value, c.value) {
+					sm.hbPending = append(sm.hbPending[:i], sm.hbPending[i+1:]...)
+					m.count("c19.heartbeats-answered")
+					break
 				}
 			}
 		case wtHEARTBEAT:
@@ -572,6 +597,11 @@ func (m *wireMon) onDeliver(to int, p *wirePacket, data []byte) {
 	cur := sm.model
 	nData, nDup := 0, 0
 	for _, c := range q.chunks {
+		if c.typ == wtHEARTBEAT && c.hbHasInfo && m.props["C19"] && p != nil && p.from == 1-to && p.mutated == nil {
+			if a := m.w.eps[to].assoc; a != nil && hbAnsweringState(accState(a)) {
+				sm.hbPending = append(sm.hbPending, hbExpect{append([]byte{}, c.value...), m.w.now()})
+			}
+		}
 		if c.typ == wtHBACK {
 			sm.stepHB = true
 			sm.hbAckSeq = sm.ackPktSeq
@@ -908,11 +938,23 @@ func (m *wireMon) onStep() {
 				return
 			}
 		}
+		if len(sm.hbPending) > 0 && w.now()-sm.hbPending[0].at > 100*time.Millisecond {
+			e := sm.hbPending[0]
+			sm.hbPending = sm.hbPending[1:]
+			c := ep.conn
+			c.mu.Lock()
+			dead := c.closed || c.writeErr != nil || c.readErr != nil
+			c.mu.Unlock()
+			if !dead && hbAnsweringState(accState(a)) && w.viol == nil {
+				w.violate("C19", "heartbeat-not-answered", "%s (state %s) received the peer's HEARTBEAT at %v and has not answered it with a HEARTBEAT-ACK 100 ms later (info %x)", ep.name, accStateName(a), e.at, e.value)
+			}
+		}
 		if m.props["C10"] {
 			if cw < mtu {
 				w.violate("C10", "cwnd-below-mtu", "%s: cwnd=%d fell below one MTU (%d)", ep.name, cw, mtu)
 			}
 			t3 := accT3Timeouts(a)
+			snapT3Before := sm.snapT3
 			if t3 > sm.snapT3 {
 				w.probe("t3-expiry")
 				floor := mtu
@@ -925,6 +967,9 @@ func (m *wireMon) onStep() {
 			}
 			sm.snapT3 = t3
 			fr := accInFastRecovery(a)
+			pin := accPacketsReceived(a)
+			onePkt := pin-sm.snapPktsIn <= 1
+			sm.snapPktsIn = pin
 			if fr && !sm.snapFR {
 				w.probe("fast-recovery-entered")
 				// RFC 9260 7.2.3: cwnd = ssthresh = max(cwnd/2, 4*MTU), where cwnd is the value at the
@@ -945,9 +990,23 @@ func (m *wireMon) onStep() {
 				if ep.cfg.MinCwnd > lim {
 					lim = ep.cfg.MinCwnd
 				}
-				if sm.dlvInStep <= 1 && cw > lim {
+				if sm.dlvInStep <= 1 && onePkt && cw > lim {
 					w.violate("C10", "cwnd-not-cut-on-fast-recovery", "%s: entered fast recovery, cwnd went %d -> %d (limit %d)", ep.name, sm.snapCwnd, cw, lim)
 				}
+			}
+			{
+				// the SACK-based loss signal itself: a chunk that has just collected its third miss indication while
+				// the sender was not in fast recovery must have put it there (whatever other recovery is active)
+				// (judged only when at most one inbound packet was processed in the step: a read loop that was kept
+				// waiting works off its whole queue in one step and may enter and leave fast recovery in it)
+				cur := map[uint32]bool{}
+				for _, tsn := range accMissedThrice(a) {
+					cur[tsn] = true
+					if !sm.miss3[tsn] && onePkt && !sm.snapFR && !fr && t3 == snapT3Before && w.viol == nil {
+						w.violate("C10", "cwnd-not-cut-on-loss-signal", "%s: TSN %d collected its third miss indication while not in fast recovery, but fast recovery was not entered and cwnd stayed %d -> %d", ep.name, tsn, sm.snapCwnd, cw)
+					}
+				}
+				sm.miss3 = cur
 			}
 			sm.snapFR = fr
 		}
